@@ -520,7 +520,7 @@ static void run_routine(rt_t *a)
     break; }
   case R_CV_EPLS_BOOT: BootstrapRandomGroupsCV(&in, w->groups, w->iters, _EPLS_, out, NULL, a->nthreads, NULL, 2, ep, Averaging); break;
   case R_CV_EPLS_LOO: LeaveOneOut(&in, _EPLS_, out, NULL, a->nthreads, NULL, 2, ep, Averaging); break;
-  case R_PCARANK: { dvector *r2; initDVector(&r2); PCARankValidation(w->mx, w->p < 2 ? 1 : 2, 1, w->groups, w->iters, r2, NULL); dvec_to_matrix(r2, out); DelDVector(&r2); break; }
+  case R_PCARANK: { dvector *r2; initDVector(&r2); libsci_verif_nprocs = 2; /* PCA's matrix-vector kernels fan out over all processors otherwise */ PCARankValidation(w->mx, w->p < 2 ? 1 : 2, 1, w->groups, w->iters, r2, NULL); dvec_to_matrix(r2, out); DelDVector(&r2); libsci_verif_nprocs = 0; break; }
   case R_KMEANSCV: { dvector *ss; initDVector(&ss); KMeansRandomGroupsCV(w->mx, a->k, a->kinit, w->groups, w->iters, ss, a->nthreads); dvec_to_matrix(ss, out); DelDVector(&ss); break; }
   case R_KMEANS_RANDOM: case R_KMEANS_PP: {
     uivector *lab; matrix *cent; size_t i, j;
@@ -576,7 +576,7 @@ static void case_other(vh_ctx *c, long kk)
   wl_t w; rt_t a; matrix *ref, *first = NULL; pthread_t th, it; long reads0, breaks0, zeros0;
   char kclock[96], kchain[96], kbit[96], kthr[96], krun[96];
   if (r == R_CV_EPLS_BOOT && iters % t2) t2 = 2;
-  if (vh_is_tsan() && (r == R_CV_EPLS_BOOT || r == R_CV_EPLS_LOO)) { n = (size_t)vh_int(c, 10, 12); iters = 2; t2 = 2; }
+  if (vh_is_tsan()) { n = (size_t)vh_int(c, 10, 12); iters = 2; if (r == R_CV_EPLS_BOOT || r == R_CV_EPLS_LOO) t2 = 2; }
   wl_make(c, &w, learner, n, p, 1, groups, iters);
   a.r = r; a.w = &w; a.nthreads = 1; a.kinit = (int)vh_int(c, 0, 3); a.k = (size_t)vh_int(c, 2, 3);
   a.seed = (uint32_t)vh_u64(c);
@@ -595,7 +595,7 @@ static void case_other(vh_ctx *c, long kk)
   initMatrix(&ref); a.out = ref;
   srand_(1u);                                  /* a defined state for the calling thread */
   run_routine(&a);
-  for (v = 0; v < 5; v++) {
+  for (v = vh_is_tsan() ? 2 : 0; v < (vh_is_tsan() ? 4 : 5); v++) {    /* the race detector needs the concurrent runs only */
     matrix *out; double d; int k, conc = v >= 2;
     initMatrix(&out); a.out = out; a.nthreads = conc ? t2 : 1;
     if (v == 0) { srand_((uint32_t)vh_u64(c)); for (k = (int)vh_int(c, 0, 9); k > 0; k--) (void)randInt(0, 7); run_routine(&a); }      /* caller's generator elsewhere */
